@@ -180,7 +180,7 @@ func constructStakingTxOut(outputs []*StakingTxOut, mtx *wire.MsgTx) error {
 		// Ensure the wallet is one of the supported types and that
 		// the network encoded with the wallet matches the network the
 		// server is currently on.
-		addr, err := massutil.DecodeAddress(output.Address, config.ChainParams)
+		addr, err := utils.DecodeAddress(output.Address, config.ChainParams)
 		if err != nil {
 			logging.CPrint(logging.ERROR, "Failed to decode address", logging.LogFormat{
 				"err: ":   err,
@@ -750,7 +750,7 @@ func (w *WalletManager) GetTxHistory(wanted int, addr string) ([]*pb.TxHistoryDe
 
 	scripts := make([][]byte, 0)
 	if len(addr) > 0 {
-		address, err := massutil.DecodeAddress(addr, w.chainParams)
+		address, err := utils.DecodeAddress(addr, w.chainParams)
 		if err != nil {
 			return nil, err
 		}
